@@ -31,7 +31,7 @@ OUTSIDE = ["lambdas and closures over differing captured values", "values outsid
 
 U = memcalls.U
 # near-colliding pairs (indices into U), both orders are explored through `swap`
-PAIRS = [(0, 0), (0, 1), (0, 2), (1, 2), (4, 5), (6, 7), (8, 9), (10, 3), (8, 8), (3, 0), (3, 4), (6, 0)]
+PAIRS = [(0, 0), (0, 1), (0, 2), (1, 2), (4, 5), (6, 7), (8, 9), (10, 3), (11, 12), (8, 8), (3, 0), (3, 4), (6, 0)]
 PROGRAMS = {"plain": ("f", "f"), "rich": ("g", "g"), "methods": ("k1.m", "k2.m"), "partials": ("p10", "p20"),
             "kw_partials": ("pk5", "pk7"),
             "async": ("co", "co")}
@@ -90,6 +90,49 @@ def ob_hist(form1: int, form2: int, form3: int, pair: int, swap: bool, vb_spelle
         return H.verdict(not res)
 
 
+IGNORES = [(), ("b",), ("a",)]
+
+
+def ob_redecorate(i1: int, i2: int, inner: int, outer: int, boundary: bool) -> bool:
+    """
+    pre: 0 <= i1 <= 5 and 0 <= i2 <= 5
+    pre: 0 <= inner <= 2 and 0 <= outer <= 2
+    post: _
+    """
+    H.enter()
+    # decorating an already decorated function: only the outer wrapper's own ignore list applies to its calls
+    a1, a2 = U[H.select(i1, 0, 5)], U[H.select(i2, 0, 5)]
+    ign_in, ign_out = IGNORES[H.select(inner, 0, 2)], IGNORES[H.select(outer, 0, 2)]
+    bd = bool(boundary)
+    with H.native():
+        w = memcalls.World()
+        probs = []
+        with memlib.env(w.fs, w.clock):
+            w.new_process()
+            plain = memcalls.resolve(w.ns, "f")
+
+            def wrappers():
+                g = w.mem.cache(plain, ignore=list(ign_in)) if ign_in else w.mem.cache(plain)
+                return g, (w.mem.cache(g, ignore=list(ign_out)) if ign_out else w.mem.cache(g))
+            g, h = wrappers()
+            seen = {}
+            calls = [(a1, 2), (a2, 2), (a1, 5), (a2, 5)]
+            for n, (a, b) in enumerate(calls):
+                if bd and n == 2:
+                    w.new_process()
+                    plain = memcalls.resolve(w.ns, "f")
+                    g, h = wrappers()
+                key = (memcalls.typed(a) if "a" not in ign_out else None, memcalls.typed(b) if "b" not in ign_out else None)
+                got = h(a, b)
+                want = seen.setdefault(key, plain(a, b))
+                if got != want and got != plain(a, b):
+                    probs.append("h = cache(cache(f, ignore=%r), ignore=%r): h(%r, %r) returned %r, f computes %r" % (
+                        list(ign_in), list(ign_out), a, b, got, plain(a, b)))
+        for m in probs:
+            H.note(m)
+        return H.verdict(not probs)
+
+
 def validate():
     from symx.stubs import fakefs
     rows = fakefs.selfcheck()
@@ -109,6 +152,9 @@ def validate():
 
 def obligations(tier, seed):
     obs = []
+    obs.append({"name": "redecorate", "fn": "ob_redecorate", "mode": "S", "timeout": 600,
+                "bounds": "h = cache(cache(f, ignore=I), ignore=O) for I, O in {[], ['b'], ['a']}; 4 calls over two of 6 "
+                          "near-colliding values x b in {2, 5}; with or without a fresh process in between"})
     compress_opts = [False, True] if tier == "quick" else [False, True, 3]
     for pname in PROGRAMS:
         for comp in compress_opts:
@@ -121,8 +167,8 @@ def obligations(tier, seed):
                 obs.append({"name": "hist/%s/compress=%s/boundary=%s" % (pname, comp, b), "fn": "ob_hist", "mode": "S",
                             "params": {"programs": pname, "compress": comp, "boundary": b,
                                        "full_universe": full, "fix_form2": True,
-                                       "npairs": 8 if tier == "quick" else len(PAIRS)},
+                                       "npairs": 9 if tier == "quick" else len(PAIRS)},
                             "timeout": 600 if tier == "quick" else 3000,
                             "bounds": "3-call histories: forms 6x6, %s value pairs x swap, default vs spelled b, direct vs "
-                                      "shelved" % ("all 121" if full else "%d near-colliding" % (8 if tier == "quick" else len(PAIRS)))})
+                                      "shelved" % ("all 169" if full else "%d near-colliding" % (9 if tier == "quick" else len(PAIRS)))})
     return obs
